@@ -6,10 +6,35 @@ use paseto_core::version::{Public, Secret};
 
 use super::{PublicKey, SecretKey, V4};
 
+/// The neutral element of the curve (y = 1, in any of the encodings a decoder may accept) is not a
+/// valid public key.
+fn is_identity(bytes: &[u8; 32]) -> bool {
+    let mut y = *bytes;
+    y[31] &= 0x7f;
+    let one = {
+        let mut b = [0u8; 32];
+        b[0] = 1;
+        b
+    };
+    // the non-canonical encoding y = p + 1 = 2^255 - 18
+    let p_plus_one = {
+        let mut b = [0xffu8; 32];
+        b[0] = 0xee;
+        b[31] = 0x7f;
+        b
+    };
+    y == one || y == p_plus_one
+}
+
 impl HasKey<Public> for V4 {
     type Key = PublicKey;
 
     fn decode(bytes: &[u8]) -> Result<PublicKey, PasetoError> {
+        if let Ok(key) = <&[u8; 32]>::try_from(bytes) {
+            if is_identity(key) {
+                return Err(PasetoError::InvalidKey);
+            }
+        }
         crypto_sign::PublicKey::from_bytes(bytes)
             .map(PublicKey)
             .map_err(|_| PasetoError::InvalidKey)
